@@ -695,6 +695,17 @@ def main(ctx):
                 if how == 'abort':
                     sw.close()
                     sw = sftp_proto.ServerWorld()
+        # ---- copy-data: one reply, bounded work (CopyData.tla); uses server
+        #      worlds of its own, so the shared one is rebuilt afterwards ----
+        sw.close()
+        from harness.drivers import sftp_copydata
+        cd_table, cd_rows = sftp_copydata.table()
+        ctx.require_tlc_ok('CopyData table', cd_table)
+        sftp_copydata.replay(ctx, cd_rows, 2,
+                             {'ExactlyOneReply', 'ErrorNotFatal',
+                              'WellFormedReply', 'CopyDataWork',
+                              'ChunkProgress'}, quick, rnd, 'c14')
+        sw = sftp_proto.ServerWorld()
         ctx.traces_validated(nh)
         ctx.notes.append(f'handle life cycle behaviours replayed: {nh}, '
                          f'requests naming an already closed handle: '
